@@ -760,6 +760,24 @@ func FreeConsumerPause(rng *Rng) (string, Cfg) {
 	return "free-consumer-pause", c
 }
 
+// FreeSendDuringConsumerStall: TConnReadTimeout = 1 s, a tiny inbound queue and a consumer that is
+// away for about two seconds, so the reader pump sits in the hand-off (not in a read) for longer
+// than the idle limit; the senders start only after the limit has passed, while the reader is
+// still stalled.  The idle limit is about reading: packets accepted then must still go out.
+func FreeSendDuringConsumerStall(rng *Rng) (string, Cfg) {
+	c := base(rng, 0)
+	var g idGen
+	c.ReadTimeout = 1
+	c.Icap = rng.Range(1, 2)
+	c.Input = inputFrames(rng, rng.Range(6, 16), smallSizes)
+	c.Senders = [][]PktSpec{g.pkts(rng, rng.Range(2, 6), smallSizes)}
+	c.Closers = []bool{true}
+	c.ConsumerPause = rng.Range(1900, 2400)
+	c.SendDelay = rng.Range(1250, 1550)
+	c.WaitInput = 2
+	return "free-send-during-consumer-stall", c
+}
+
 // GatedRefusedThenClose: the packet the encoder refuses is met by the RUNNING writer pump (not
 // by the close-time flush): the sender queues packets up to and including the over-limit one,
 // the writer processes all of them, then more sends, then Close and everything else in seeded
